@@ -38,7 +38,7 @@ Step ==
   /\ l' = l + 1
   /\ CASE ev.ev = "cfg" ->
             Cfg([root |-> ev.data.root, routes |-> ev.data.routes, integs |-> ev.data.integs,
-                 inhibit |-> ev.data.inhibit, windows |-> ev.data.windows, wait |-> ev.data.wait, maxwait |-> ev.data.maxwait])
+                 inhibit |-> ev.data.inhibit, windows |-> ev.data.windows, wait |-> ev.data.wait, maxwait |-> ev.data.maxwait, agc |-> ev.data.agc])
        [] ev.ev = "wait" -> SetWait(ev.data.wait)
        [] ev.ev = "nflog.merge" -> NflogMerge(ev.gk, ev.integ, ev.data.ts, ToSet(ev.firing), ToSet(ev.resolved))
        [] ev.ev = "ingest" -> Ingest(ev.alerts[1].l, Ver(ev.alerts[1]))
@@ -61,6 +61,7 @@ Note(x) == TLCSet(2, Append(TLCGet(2), x))
 Report(line) ==
   /\ (chk' # {} => Note([run |-> Trace[line].run, line |-> line, t |-> now', clauses |-> chk']))
   /\ (~C01_Deadline' => Note([run |-> Trace[line].run, line |-> line, t |-> now', clauses |-> {"C01_eligible_alert_not_notified_within_bound"}]))
+  /\ (~C05_Deadline' => Note([run |-> Trace[line].run, line |-> line, t |-> now', clauses |-> {"C05_resolution_not_notified_within_bound"}]))
 
 TraceNext == (Tick \/ Step) /\ Report(l)
 TraceSpec == TraceInit /\ [][TraceNext]_tvars
